@@ -450,7 +450,7 @@ void NiSkinPartition::PrepareVertexMapsAndTriangles() {
 
 void NiSkinPartition::GenerateTriPartsFromTrueTriangles(const std::vector<Triangle>& shapeTris) {
 	triParts.clear();
-	triParts.resize(shapeTris.size());
+	triParts.resize(shapeTris.size(), -1);
 
 	// Make a map from Triangles to their indices in shapeTris
 	std::unordered_map<Triangle, int> shapeTriInds;
